@@ -178,7 +178,7 @@ impl Placer {
 //|         // ... and is flush with it on the requested alignment edge
 //|         &&& match rel.align->Side_0 { Side::Left => b1.0 == b0.0, Side::Right => b1.1 == b0.1, Side::Bottom => b1.2 == b0.2, Side::Top => b1.3 == b0.3 }
 //|     }),
-//@   before /Get its edge-coordinates in each axis/
+//@   before1 /Get its edge-coordinates in each axis|let mut side_coord = bbox\.side\(rel\.side\);/
 //|         proof {
 //|             let b0 = ref_box(rel.to);
 //|             assert(bbox.p0.x.dir == Dir::Horiz && bbox.p1.x.dir == Dir::Horiz && bbox.p0.y.dir == Dir::Vert && bbox.p1.y.dir == Dir::Vert);
